@@ -30,6 +30,18 @@ class Agg:
         return f"Agg{self.fields}"
 
 
+class Closure(Agg):
+    """A closure value: its captured variables in order + the source location that names its body in the dump."""
+    __slots__ = ("loc",)
+
+    def __init__(self, fields, loc):
+        Agg.__init__(self, fields)
+        self.loc = loc
+
+    def __repr__(self):
+        return f"Closure@{self.loc}{self.fields}"
+
+
 class Enum:
     __slots__ = ("tag", "pay", "ety")
 
@@ -715,6 +727,11 @@ class Executor:
                 v = self.eval_operand(fn, mrep.group(1), st, frame)
                 return Agg([v] * int(mrep.group(2)))
             return Agg([self.eval_operand(fn, a, st, frame) for a in split_top(inner)])
+        # closure literal  {closure@file:l:c: l:c} { captured: op, .. }
+        m = re.match(r"^\{closure@([^}]+)\}(?: \{ (.*) \})?$", r)
+        if m:
+            caps = [self.eval_operand(fn, part.split(": ", 1)[1], st, frame) for part in split_top(m.group(2))] if m.group(2) else []
+            return Closure(caps, m.group(1))
         # struct literal  Name { a: op, b: op }
         m = re.match(r"^([A-Za-z_0-9:<>, ]+?) \{ (.*) \}$", r)
         if m:
